@@ -585,7 +585,7 @@ def verdictshift(run, fx):
         run.held('RESOLVED', inst, fn.loc(ss[0]), 'setShift(%s) under nothing but tests of %s itself' % (res['n'], res['n']))
 
 
-def axisbase(run, fx, q='graphite2::ShiftCollider::resolve', var='tbase', inst=None):
+def axisbase(run, fx, q='graphite2::ShiftCollider::resolve', var='tbase', inst=None, optional=False):
     """RESOLVED: the four interval sets of ShiftCollider work on x, y, x+y and x-y.  ShiftCollider::resolve converts the best position of
     axis i back with `- tbase`, where tbase must be that axis' linear form of the current offset: (1,0), (0,1), (1,1), (1,-1) for
     i = 0..3, read from the switch arms as linear forms over (_currOffset.x, _currOffset.y).  With the sum form on the diff axis the
@@ -611,6 +611,9 @@ def axisbase(run, fx, q='graphite2::ShiftCollider::resolve', var='tbase', inst=N
                     got[k_] = (cx, cy) if not other and c == 0 else None
     inst = inst or 'resolve converts axis i back with that axis\' own form of the offset'
     if len(got) < 4:
+        if optional:
+            run.observe('RESOLVED: the per-axis `%s = ..` arms of %s are not in switch form; the symbolic execution of the function decides the same question' % (var, q.split('::')[-1]))
+            return
         run.broken('RESOLVED', inst, 'the per-axis `%s = ..` arms of %s were not recognised (%s)' % (var, q.split('::')[-1], got), fn.where())
         return
     # explicit case arms take precedence over a default arm
@@ -649,6 +652,71 @@ def rangestart(run, fx):
         run.violated('RESOLVED', inst, fn.loc(e), 'the forward phases of collisionShift begin their neighbour walks at different slots (%s): one of them does not cover the whole collision range' % sorted(fwd))
     else:
         run.held('RESOLVED', inst, fn.loc(calls[0]), '%d calls; forward phases start at `%s`' % (len(calls), list(fwd)[0] if fwd else '-'))
+
+
+def resolve_exec(run, fx):
+    """RESOLVED by symbolic execution (ordint.Poly): ShiftCollider::resolve is interpreted with the current offset, the current shift and
+    the best position of every axis as SYMBOLS, for every assignment of costs to the four axes (no free point / distinct costs in every
+    order).  The answer is the one the axes themselves dictate, whatever the form of the code: the axis with the lowest cost is taken;
+    the shift S handed back puts the glyph where that axis' interval set said it is free -- a.(offset + S) = p for the axis vector a
+    in {(1,0), (0,1), (1,1), (1,-1)} -- and leaves the perpendicular component of the current shift alone; with no free point on any
+    axis the collision remains (isCol) and the shift is zero."""
+    import itertools
+    fn = fx.one('graphite2::ShiftCollider::resolve')
+    PC, PP = 'graphite2::ShiftCollider::', 'graphite2::Position::'
+    rec = fx.record('graphite2::ShiftCollider')
+    sym = O.Poly.sym
+    AX = {0: (1, 0), 1: (0, 1), 2: (1, 1), 3: (1, -1)}
+    inst = 'resolve hands back the cheapest axis\' free position, as a shift (symbolic)'
+    cases = 0
+    try:
+        for costs in itertools.product((-1, 1.0, 2.0, 3.0, 4.0), repeat=4):
+            pos = [c for c in costs if c >= 0]
+            if len(set(pos)) != len(pos):
+                continue
+            sc = O.Rec()
+            for f in rec['fields']:
+                sc[PC + f['n']] = O.Ptr(None) if f.get('ptr') else 0
+            sc[PC + '_currOffset'] = O.Rec({PP + 'x': sym('ox'), PP + 'y': sym('oy')})
+            sc[PC + '_currShift'] = O.Rec({PP + 'x': sym('sx'), PP + 'y': sym('sy')})
+            sc[PC + '_ranges'] = O.It(O.Vec([O.Rec({'#axis': k}) for k in range(4)]), 0)
+
+            def closest(I, f, e, obj, a, costs=costs):
+                k = obj['#axis']
+                a[1].store(O.Poly.of(costs[k]))          # exact constants: float arithmetic on them stays decidable
+                return sym('p%d' % k)
+            nat = {'graphite2::Zones::closest': closest, 'std::numeric_limits<float>::max': lambda I, f, e, obj, a: O.Poly.of(10 ** 30)}
+            it = O.Interp(fx, natives=nat)
+            it.MAX_STEPS = 8000
+            colbox = [None]
+            cases += 1
+            r = it.call(fn, sc, [O.Ptr(None), O.LV(colbox, 0), O.Ptr(None)])
+            rx, ry = O.Poly.of(r[PP + 'x']), O.Poly.of(r[PP + 'y'])
+            desc = 'axis costs %s (x, y, x+y, x-y; -1 = no free point)' % (list(costs),)
+            if not pos:
+                if colbox[0] is not True or rx != 0 or ry != 0:
+                    run.violated('RESOLVED', inst, fn.where(), '%s: no axis has a free point, yet resolve reports isCol = %s and the shift (%s, %s)' % (desc, colbox[0], rx, ry))
+                    return
+                continue
+            if colbox[0] is not False:
+                run.violated('RESOLVED', inst, fn.where(), '%s: an axis has a free point but the collision is reported as remaining' % desc)
+                return
+            best = min(range(4), key=lambda k: costs[k] if costs[k] >= 0 else 1e9)
+            ax, ay = AX[best]
+            along = rx * ax + ry * ay + sym('ox') * ax + sym('oy') * ay            # a . (offset + S)
+            perp_s = rx * ay - ry * ax                                          # a_perp . S   with a_perp = (ay, -ax)
+            perp_c = sym('sx') * ay - sym('sy') * ax
+            if along != sym('p%d' % best) or perp_s != perp_c:
+                other = [k for k in range(4) if k != best and rx * AX[k][0] + ry * AX[k][1] + sym('ox') * AX[k][0] + sym('oy') * AX[k][1] == sym('p%d' % k)]
+                run.violated('RESOLVED', inst, fn.where(), '%s: the cheapest axis is %d, a = %s; the shift handed back is (%s, %s): a.(offset + shift) = %s, expected p%d, and the perpendicular part is %s, '
+                             'expected that of the current shift, %s%s -- the glyph is reported resolved at a position that was never tested' %
+                             (desc, best, AX[best], rx, ry, along, best, perp_s, perp_c, ('; the shift is the one of axis %d' % other[0]) if other else ''))
+                return
+    except O.Violation as v:
+        run.violated('RESOLVED', inst, fn.where(), '%s (%s)' % (v.what, v.loc))
+        return
+    run.held('RESOLVED', inst, fn.where(), '%d cost assignments; offset, shift and the four best positions symbolic' % cases)
+    return True
 
 
 def limitdiag(run, fx):
@@ -1031,7 +1099,7 @@ def run(run):
     N = 4 if run.tier == 'thorough' and not run.cfg_tag else 3
     for name, f in (('ZONESET', lambda: zoneset(run, fx, N)), ('ZONESET', lambda: initialise_exec(run, fx)), ('ZONEWRITERS', lambda: zonewriters(run, fx)),
                     ('OFFERED', lambda: offered(run, fx, N)), ('RESOLVED', lambda: resolved(run, fx)), ('RESOLVED', lambda: verdictshift(run, fx)),
-                    ('LIMITARGS', lambda: limitargs(run, fx)), ('LIMITARGS', lambda: kernclamp(run, fx)), ('LIMITARGS', lambda: initfresh(run, fx)), ('RESOLVED', lambda: rangestart(run, fx)), ('RESOLVED', lambda: axisbase(run, fx)), ('RESOLVED', lambda: axisbase(run, fx, 'graphite2::ShiftCollider::mergeSlot', 'torg', 'mergeSlot places the limit window of axis i at that axis\' own form of the offset')), ('LIMITARGS', lambda: limitdiag(run, fx)), ('LIMITARGS', lambda: targetown(run, fx))):
+                    ('LIMITARGS', lambda: limitargs(run, fx)), ('LIMITARGS', lambda: kernclamp(run, fx)), ('LIMITARGS', lambda: initfresh(run, fx)), ('RESOLVED', lambda: rangestart(run, fx)), ('RESOLVED', lambda: resolve_exec(run, fx)), ('RESOLVED', lambda: axisbase(run, fx, optional=True)), ('RESOLVED', lambda: axisbase(run, fx, 'graphite2::ShiftCollider::mergeSlot', 'torg', 'mergeSlot places the limit window of axis i at that axis\' own form of the offset')), ('LIMITARGS', lambda: limitdiag(run, fx)), ('LIMITARGS', lambda: targetown(run, fx))):
         try:
             f()
         except AnalysisBroken as ex:
